@@ -5,6 +5,7 @@ package main
 
 import (
 	"fmt"
+	"reflect"
 	"go/constant"
 	"go/token"
 	"go/types"
@@ -38,6 +39,9 @@ func staticCallee(cc *ssa.CallCommon) *ssa.Function {
 
 func calleeName(cc *ssa.CallCommon) string {
 	if f := cc.StaticCallee(); f != nil {
+		if o := f.Origin(); o != nil {
+			return o.Name()
+		}
 		return f.Name()
 	}
 	if cc.IsInvoke() {
@@ -470,7 +474,7 @@ func allPathsFromPassThrough(from ssa.Instruction, isTarget func(ssa.Instruction
 func render(v ssa.Value) string { return renderD(v, 0) }
 
 func renderD(v ssa.Value, depth int) string {
-	if v == nil {
+	if v == nil || reflect.ValueOf(v).IsNil() {
 		return "nil"
 	}
 	if depth > 5 {
@@ -508,11 +512,10 @@ func renderD(v ssa.Value, depth int) string {
 			return renderD(x.X, depth+1) + "." + f.Name()
 		}
 	case *ssa.Phi:
-		var ps []string
-		for _, e := range x.Edges {
-			ps = append(ps, renderD(e, depth+1))
+		if x.Comment != "" {
+			return "φ" + x.Comment
 		}
-		return "φ[" + strings.Join(ps, "|") + "]"
+		return "φ" + x.Name()
 	case *ssa.Parameter:
 		return x.Name()
 	case *ssa.FreeVar:
@@ -535,6 +538,12 @@ func renderD(v ssa.Value, depth int) string {
 		return x.Name()
 	case *ssa.Function:
 		return x.Name()
+	case *ssa.Alloc:
+		if x.Comment != "" {
+			return x.Comment
+		}
+	case *ssa.MakeClosure:
+		return "closure"
 	}
 	return v.Name()
 }
